@@ -7,7 +7,7 @@ W=/tmp/confirm-$ID
 LOG=/var/tmp/scratch/confirm-$ID.log
 rm -rf $W; git -C /repo worktree prune; git -C /repo worktree add -f $W HEAD --detach > $LOG 2>&1 || exit 2
 cd $W && git apply "$SRC/patch.diff" >> $LOG 2>&1 || { echo "$ID: patch does not apply"; git -C /repo worktree remove --force $W; exit 2; }
-cmake -G Ninja -S $W -B $W/_build -DCMAKE_BUILD_TYPE=RelWithDebInfo -DCMAKE_CXX_FLAGS=-Wno-error >> $LOG 2>&1 && cmake --build $W/_build -j8 >> $LOG 2>&1 || { echo "$ID: does not compile"; git -C /repo worktree remove --force $W; exit 2; }
+cmake -G Ninja -S $W -B $W/_build -DCMAKE_BUILD_TYPE=RelWithDebInfo -DCMAKE_CXX_FLAGS=-Wno-error ${EXTRA_CMAKE:-} >> $LOG 2>&1 && cmake --build $W/_build -j8 >> $LOG 2>&1 || { echo "$ID: does not compile"; git -C /repo worktree remove --force $W; exit 2; }
 ctest --test-dir $W/_build -j8 --timeout 900 >> $LOG 2>&1; SUITE=$?
 cp "$SRC/demo.cpp" $W/demo_seeded.cpp
 demo(){
